@@ -216,7 +216,21 @@ func (u *Unit) run() {
 	u.prepareReplay(old)
 	u.cover(st, "vacuity.requires", "precondition (requires ∧ repinv ∧ type ranges) is satisfiable")
 	st.trace = []string{"entry " + u.name}
+	if u.ct.Flags["functional"] != "" {
+		// `functional`: the results are a function of the (scalar) arguments alone. Checked structurally along every
+		// path: no heap, map or package-variable access, and only deterministic callees.
+		for nm, v := range names {
+			switch kindOf(v.T) {
+			case kString, kInt, kUint, kBool, kFloat:
+			default:
+				u.eng.specError("%s: functional needs scalar parameters (%s)", u.name, nm)
+			}
+		}
+		u.oblige(st, "functional", "functional", "result depends only on the arguments (no state access, deterministic callees)", "true", false)
+		u.functional = true
+	}
 	outs := u.execBlock(st, u.body.List)
+	u.functional = false
 	for _, o := range outs {
 		u.finish(o)
 	}
